@@ -179,13 +179,13 @@ struct Dumper
         case statementType_e::LogicalAnd: out += "(and "; node(n[1]); out += ' '; node(n[2]); out += ')'; break;
         case statementType_e::LogicalOr: out += "(or "; node(n[1]); out += ' '; node(n[2]); out += ')'; break;
         case statementType_e::MethodEvent:
-            out += "(mcmd "; out += std::to_string(es.FindNormalEventNum(n[2].stringValue)); out += ' '; node(n[1]); out += ' '; params(n[3], true); out += ')'; break;
+            out += "(mcmd "; out += std::to_string(es.FindNormalEventNum(n[2].stringValue)); out += ' '; out += hexStr(n[2].stringValue); out += ' '; node(n[1]); out += ' '; params(n[3], true); out += ')'; break;
         case statementType_e::MethodEventExpr:
-            out += "(mcmdx "; out += std::to_string(es.FindReturnEventNum(n[2].stringValue)); out += ' '; node(n[1]); out += ' '; params(n[3], true); out += ')'; break;
+            out += "(mcmdx "; out += std::to_string(es.FindReturnEventNum(n[2].stringValue)); out += ' '; out += hexStr(n[2].stringValue); out += ' '; node(n[1]); out += ' '; params(n[3], true); out += ')'; break;
         case statementType_e::CmdEvent:
-            out += "(cmd "; out += std::to_string(es.FindNormalEventNum(n[1].stringValue)); out += ' '; params(n[2], true); out += ')'; break;
+            out += "(cmd "; out += std::to_string(es.FindNormalEventNum(n[1].stringValue)); out += ' '; out += hexStr(n[1].stringValue); out += ' '; params(n[2], true); out += ')'; break;
         case statementType_e::CmdEventExpr:
-            out += "(cmdx "; out += std::to_string(es.FindReturnEventNum(n[1].stringValue)); out += ' '; params(n[2], true); out += ')'; break;
+            out += "(cmdx "; out += std::to_string(es.FindReturnEventNum(n[1].stringValue)); out += ' '; out += hexStr(n[1].stringValue); out += ' '; params(n[2], true); out += ')'; break;
         case statementType_e::Field: field(n); break;
         case statementType_e::Listener: out += "(listener "; out += std::to_string(unsigned(n[1].byteValue)); out += ')'; break;
         case statementType_e::String: out += "(str "; str(n[1].stringValue); out += ')'; break;
